@@ -193,8 +193,9 @@ CHECKS['C03'] = dict(
          "haystack.len() at every level, that every internal call passes the construction needle and respects min_haystack_len, "
          "that Some(i) is returned only after needle[..] was compared equal with haystack[i..i+len] of the CALLER's haystack "
          "(Rabin-Karp, packed pair, large-period Two-Way, the meta searcher over them; a sub-search must be rebased), the "
-         "small-period shift-memory discipline (shift == 0 or last move == +period and shift + period <= len), the empty needle => "
-         "Some(0), and the union/fn-pointer pairing. Why 'other': that Two-Way never skips an occurrence is the critical "
+         "small-period shift-memory discipline (shift == 0 or last move == +period and shift + period <= len), completeness of the "
+         "packed-pair vector searcher (the strategy for 2..=32-byte needles: None / Some(i) only after every fitting position "
+         "(before i) was rejected), the empty needle => Some(0), and the union/fn-pointer pairing. Why 'other': that Two-Way never skips an occurrence is the critical "
          "factorisation theorem and that the rolling hash tracks the window is arithmetic mod 2^32 -- neither is in reach of a "
          "sound static argument here; a runtime oracle would be a different technique.",
     note=SUBNOTE, design_ref='5/C03')
@@ -220,8 +221,9 @@ CHECKS['C12'] = dict(
     text="Per building block: Two-Way fwd/rev construction relation, index range, verified offset (large period), shift-memory "
          "discipline (small period); Rabin-Karp fwd/rev index range and verified offset (a hash hit alone never answers); "
          "Shift-Or new returns None exactly when len > 15 and remembers the length, index range; packed-pair new/with_pair store "
-         "the pair and needle bytes given, find's documented panic is exact, index range, verified offset. NOT decided: that "
-         "Two-Way / the rolling hash / the Shift-Or automaton never miss an occurrence.",
+         "the pair and needle bytes given; packed-pair find is decided COMPLETELY on its documented domain (documented panic exact, "
+         "verified offset, and None/Some(i) only after every fitting position (before i) was rejected -- leftmost occurrence, "
+         "relative to the vector axioms). NOT decided: that Two-Way / the rolling hash / the Shift-Or automaton never miss an occurrence.",
     note=SUBNOTE, design_ref='5/C12')
 
 NOT_YET = "check not built yet (build in progress, see DESIGN.md section 8 build order)"
